@@ -242,6 +242,10 @@ def _callee_source(sigs):
             return "%s * %d" % ("a%d" % i if t == "long" else "(long)a%d" % i, i + 1)
         body = " + ".join(term(i, t) for i, t in enumerate(sig)) or ("0.0" if ret == "double" else "0")
         out.append("%s f%d(%s) { return %s; }" % (ret, k, params, body))
+        if ret == "double":
+            # the same parameters summed as integers: every float / double parameter is converted with a C cast (truncation)
+            ibody = " + ".join("%s * %d" % ("a%d" % i if t == "long" else "(long)a%d" % i, i + 1) for i, t in enumerate(sig))
+            out.append("long h%d(%s) { return %s; }" % (k, params, ibody))
     return "\n".join(out) + "\n"
 
 
@@ -286,6 +290,14 @@ def _exec_callee(seed, per_n, calls):
             args = [_arg_value(r, t) for t in sig]
             ev += 1
             got, want = f(*args), _expected_sum(sig, args)
+            if any(_CT[t][1] for t in sig):
+                ev += 1
+                goth = getattr(m, "h%d" % k)(*args)
+                wanth = sum(int(a) * (i + 1) for i, a in enumerate(args))
+                wanth = ((wanth + (1 << 63)) % (1 << 64)) - (1 << 63)
+                if goth != wanth and len(bad) < 3:
+                    bad.append({"name": "ppci-compiled callee h(%s) called through libffi with %r returns the weighted sum of the parameters cast to long (truncation)" % (", ".join(sig), args),
+                                "input": {"kind": "exec-callee", "seed": seed, "per_n": per_n, "calls": calls}, "expected": repr(wanth), "observed": repr(goth), "signature": sig, "args": args})
             if got != want and len(bad) < 3:
                 bad.append({"name": "ppci-compiled callee f(%s) called through libffi with %r returns the position-weighted sum" % (", ".join(sig), args),
                             "input": {"kind": "exec-callee", "seed": seed, "per_n": per_n, "calls": calls}, "expected": repr(want), "observed": repr(got), "signature": sig, "args": args})
